@@ -151,7 +151,7 @@ func runWriter(rc *RunCtx, p writerPlan, w *simrt.SimWriteCloser) SimResult {
 	return rc.Sim(SimOpts{}, func() {
 		switch p.Kind {
 		case wkChunk:
-			ch := obiformats.WriteSeqFileChunk(w, true)
+			ch, _ := obiformats.WriteSeqFileChunk(w, true)
 			for _, i := range p.Arrival {
 				simrt.Send(ch, obiformats.SeqFileChunk{Source: "sim", Raw: bytes.NewBuffer(chunkText(i, p.Sizes[i])), Order: i})
 			}
